@@ -1564,6 +1564,49 @@ def run(ctx):
             ctx.seen('generator_rules', f)
         return e, {'shared_uses': g.shared_uses, 'n_local_aggs': g.n_agg}
 
+    # ---- phase corpus: a fixed catalogue of hand-written sharing patterns (shard 0 of every run) -----------
+    def corpus():
+        four = hl.int32(4)
+        X = four + four                      # contains `four` twice: a binding site whenever X is the root of a block
+        c = hl.bool(True)
+        arr = hl.array([1, 2, 3])
+        inner = hl.array([10, 20])
+        t = hl.utils.range_table(4)
+        Xr = t.idx + t.idx
+
+        def shared_local_agg(x):
+            s = inner.aggregate(lambda e: hl.agg.sum(e) + hl.int64(x))   # result position mentions the lambda variable
+            return s + s
+
+        def shared_local_scan(x):
+            s = inner._to_stream()._aggregate_scan(lambda e: hl.int32(hl.scan.sum(e)) + x).to_array()
+            return s.extend(s)
+
+        return [
+            ('shared node is lifted and is also the root of an If branch at the same depth', lambda: (X + X) + hl.if_else(c, X, 0)),
+            ('... in a table row', lambda: t.annotate(y=(Xr + Xr) + hl.if_else(t.idx > 1, Xr, 0)).aggregate(hl.agg.collect(t.idx), _localize=False)),
+            ('second use of a lifted node at the depth of its block-root occurrence, then a sibling If', lambda: hl.array([(X * 2) * 3, X + 1, hl.if_else(c, four, 0), hl.if_else(c, X, 0)])),
+            ('shared node under both branches', lambda: hl.if_else(c, X, X) + hl.if_else(c, X + X, 0)),
+            ('nested conditionals share a node', lambda: hl.if_else(c, hl.if_else(c, X * X, 1) + X * X, 0)),
+            ('local aggregation used twice inside a lambda, result mentions the lambda variable', lambda: arr.map(shared_local_agg)),
+            ('local scan used twice inside a lambda, body mentions the lambda variable', lambda: arr.map(shared_local_scan)),
+            ('aggregator argument shared inside one aggregation', lambda: inner.aggregate(lambda e: hl.agg.sum(e * e + 1) + hl.agg.max(e * e + 1))),
+            ('closed expression shared across the aggregation boundary', lambda: inner.aggregate(lambda e: hl.agg.sum(e + X) + hl.int64(X))),
+            ('explode variable and element shared', lambda: inner.aggregate(lambda e: hl.agg.explode(lambda v: hl.agg.sum((v + e) * (v + e)), hl.range(e % 3)))),
+            ('fold accumulator expression shared', lambda: hl.fold(lambda acc, e: (acc + e) * (acc + e), 0, arr)),
+            ('bind value shared with body', lambda: hl.bind(lambda y: y + X * y, X)),
+            ('scan and row expression shared in annotate', lambda: t.annotate(s=hl.scan.sum(Xr) + hl.int64(Xr), u=hl.scan.count() + hl.scan.sum(Xr)).aggregate(hl.agg.sum(t.idx), _localize=False)),
+        ]
+
+    if ctx.shard == 0:
+        for j, (what, build) in enumerate(corpus()):
+            if ctx.replay is not None and (ctx.replay.get('phase') != 'corpus' or ctx.replay.get('case_index') != j):
+                continue
+            ctx.case_index = ('corpus', j)
+            one(j, None, lambda r, b=build, w=what: (b(), {'corpus': w}), 'corpus')
+            ctx.count('corpus_cases')
+        ctx.case_index = None
+
     N = ctx.pick(900, 6000)
     for i, rng in ctx.cases(N, 'expr'):
         one(i, rng, build_expr, 'expr')
